@@ -29,7 +29,10 @@ def _setv(it, f, st):
 
 
 class Bench:
+    CLS = T
+
     def __init__(self, prog, schedule, min_threads, max_threads):
+        T = self.CLS
         self.prog = prog
         self.loopq = []
         self.log = []               # the global order of what happened: ('submitted', n, id, prio) ('pick', id) ('start', n, tid) ('end', n, tid) ('cb', n, tid) ...
@@ -53,21 +56,42 @@ class Bench:
         it._keep.append(self.loop)
         self.pool = it.new_record(T)
         it._keep.append(self.pool)
-        ctor = [g for g in prog.by_name.get(T + '::ThreadPool', ()) if g.d.get('ctor') and len(g.params) == 1 and g.body is not None]
+        ctor = [g for g in prog.by_name.get(T + '::' + T.split('::')[-1], ()) if g.d.get('ctor') and len(g.params) == 1 and g.body is not None]
         if len(ctor) != 1:
-            raise AnalysisBroken('ThreadPool(Loop*): %d candidate(s)' % len(ctor))
-        it.run_ctor(ctor[0], ctor[0].stmts[0], self.pool, T, ctor[0], [it.ref(self.loop)])
-        self.d = it.record_of(self.pool.get('d_'))
-        if self.d is None:
-            raise AnalysisBroken('ThreadPool::d_ is not a record after construction')
-        for nm in ('lock', 'cond_var'):
-            self.d[nm] = {'__cls__': 'std::' + nm, '__open__': True}
-            it._keep.append(self.d[nm])
-        self.d['undo_tasks_token'] = [[] for _ in range(5)]
-        self.d['doing_tasks_token'] = []
+            raise AnalysisBroken('%s(Loop*): %d candidate(s)' % (T, len(ctor)))
+        self.d = None
         self.min_threads, self.max_threads = min_threads, max_threads
         self.thread_objs = []
         self.problem = None
+        it.ctor_hooks[T + '::Data'] = self.h_new_data
+        it.run_ctor(ctor[0], ctor[0].stmts[0], self.pool, T, ctor[0], [it.ref(self.loop)])
+        if self.d is None or it.record_of(self.pool.get('d_')) is not self.d:
+            raise AnalysisBroken('%s::d_ is not the Data record after construction' % T)
+        self.min_threads, self.max_threads = min_threads, max_threads
+        self.thread_objs = []
+        self.problem = None
+
+    def prepare_data(self):
+        it = self.it
+        for nm in ('lock', 'cond_var'):
+            if not isinstance(self.d.get(nm), dict):
+                self.d[nm] = {'__cls__': 'std::' + nm, '__open__': True}
+                it._keep.append(self.d[nm])
+        if self.CLS == T:
+            self.d['undo_tasks_token'] = [[] for _ in range(5)]
+        else:
+            self.d['undo_tasks_token_deque'] = []
+        self.d['doing_tasks_token'] = []
+
+    def queues(self):
+        return self.d['undo_tasks_token'] if self.CLS == T else [self.d['undo_tasks_token_deque']]
+
+    def h_new_data(self, it, f, st, args):
+        rec = it.new_record(self.CLS + '::Data')
+        it._keep.append(rec)
+        self.d = rec
+        self.prepare_data()
+        return rec
 
     # ---- containers
     def h_abort(self, it, f, st, a):
@@ -124,13 +148,13 @@ class Bench:
             it.fault(f, st, 'pop on an empty sequence')
             return None
         x = v.pop(-1 if back else 0)
-        if any(v is q_ for q_ in self.d['undo_tasks_token']) and self.k.current.tid != 0:
+        if any(v is q_ for q_ in self.queues()) and self.k.current.tid != 0:
             # a worker removes a token from a waiting queue: that is the moment it takes the task (cleanup, on the loop thread, drops them instead)
             self.log.append(('pick', _plain(it, x).get('id_'), self.k.current.tid))
 
     # ---- the object pool of tasks, the loop, exceptions
     def h_pool_alloc(self, it, f, st, a):
-        rec = it.new_record(T + '::Task')
+        rec = it.new_record(self.CLS + '::Task')
         it._keep.append(rec)
         self.live_tasks.add(id(rec))
         return it.ref(rec)
@@ -156,8 +180,6 @@ class Bench:
 
     # ---- threads
     def h_new_thread(self, it, f, st, args):
-        if len([t for t in self.k.threads[1:] if not t.done]) >= self.max_threads + 1:
-            pass
         rec = self.k.new_thread_object(args[0], args[1:])
         self.thread_objs.append(rec)
         return rec
@@ -171,9 +193,9 @@ class Bench:
 
     # ---- driver
     def call(self, name, args=(), pick=None):
-        cands = [g for g in self.prog.by_name.get(T + '::' + name, ()) if g.body is not None and len(g.params) == len(args) and (pick is None or pick(g))]
+        cands = [g for g in self.prog.by_name.get(self.CLS + '::' + name, ()) if g.body is not None and len(g.params) == len(args) and (pick is None or pick(g))]
         if len(cands) != 1:
-            raise AnalysisBroken('ThreadPool::%s/%d: %d candidate(s)' % (name, len(args), len(cands)))
+            raise AnalysisBroken('%s::%s/%d: %d candidate(s)' % (self.CLS, name, len(args), len(cands)))
         return self.it.call(cands[0], list(args), this=self.pool)
 
     def execute(self, prio, with_cb):
@@ -187,10 +209,10 @@ class Bench:
         def cb(n=n):
             self.log.append(('cb', n, self.k.current.tid))
         mv = lambda g: g.params[0]['t'].rstrip().endswith('&&')
-        tok = self.call('execute', [body, cb if with_cb else 0, prio], pick=mv)
+        tok = self.call('execute', [body, cb if with_cb else 0, prio if self.CLS == T else 0], pick=mv)
         r = self.it.record_of(tok) if not isinstance(tok, dict) else tok
         tid = (r or {}).get('id_')
-        self.tasks.append({'id': tid, 'prio': max(-2, min(2, prio)), 'cb': with_cb, 'tok': dict(r) if r else None})
+        self.tasks.append({'id': tid, 'prio': max(-2, min(2, prio)) if self.CLS == T else 0, 'cb': with_cb, 'tok': dict(r) if r else None})
         self.log.append(('submitted', n, tid))
         return n
 
@@ -200,7 +222,7 @@ class Bench:
     def turn(self):
         while self.loopq:
             fn = self.loopq.pop(0)
-            f0 = self.prog.fn1(T + '::cleanup')
+            f0 = self.prog.fn1(self.CLS + '::cleanup')
             self.it.invoke(f0, f0.stmts[0], fn, [])
 
     def started(self, n):
@@ -210,16 +232,20 @@ class Bench:
         return any(e[0] == 'end' and e[1] == n for e in self.log)
 
 
-def run_once(prog, script, schedule, min_threads, max_threads):
+class WorkBench(Bench):
+    CLS = 'tbox::eventx::WorkThread'
+
+
+def run_once(prog, script, schedule, min_threads, max_threads, bench=Bench):
     """(choices, verdict)"""
-    b = Bench(prog, schedule, min_threads, max_threads)
+    b = bench(prog, schedule, min_threads, max_threads)
     k, it = b.k, b.it
     answers = []            # (position in the log, kind, task, answer)
     verdict = None
     cleaned = None
     try:
         try:
-            if not b.call('initialize', [min_threads, max_threads]):
+            if bench is Bench and not b.call('initialize', [min_threads, max_threads]):
                 raise AnalysisBroken('ThreadPool::initialize(%d, %d) refused' % (min_threads, max_threads))
             for a in script:
                 if a[0] == 'exec':
@@ -238,7 +264,7 @@ def run_once(prog, script, schedule, min_threads, max_threads):
                                       'task(s) %s accepted and not cancelled are never executed' % [n for n in range(len(b.tasks)) if n not in cancelled and not b.ended(n)])
                 if it.faults:
                     break
-                size = b.call_cab_size()
+                size = b.call_cab_size() if bench is Bench else None
                 if isinstance(size, int) and size > max_threads:
                     verdict = 'the pool holds %d worker threads where %d is the configured maximum' % (size, max_threads)
                     break
@@ -338,7 +364,7 @@ def judge(b, answers, cleaned):
             return 'worker %s is still alive after cleanup() has returned' % t.name
         if not t.joined:
             return 'worker %s has ended and is never joined' % t.name
-    for rec in b.thread_objs:
+    for rec in (b.thread_objs if b.CLS == T else ()):
         if rec.get('deleted', 0) != 1:
             return 'a std::thread object of the pool is destroyed %d time(s)' % rec.get('deleted', 0)
     if b.live_tasks:
@@ -362,6 +388,15 @@ SCRIPTS = [
 ]
 
 
+WORK_SCRIPTS = [
+    [E(0), E(0), ('cancel', 1), ('status', 0), ('settle',), ('turn',)],
+    [E(0), ('turn',), ('turn',), ('settle',), ('turn',)],
+    [E(0), E(0, False)],
+    [E(0), ('settle',), E(0), ('status', 1), ('cancel', 1), ('settle',), ('turn',)],
+    [],
+]
+
+
 def describe(script):
     return ' '.join('%s(%s)' % (a[0], ','.join(str(x) for x in a[1:])) for a in script)
 
@@ -369,14 +404,14 @@ def describe(script):
 def r15(ctx, prog):
     import sys
     full = ctx.tier == 'thorough'
-    ctx.rule('C05.R15', 'A10 the thread pool over interleavings: %d driver scripts (execute with priorities and completion callbacks, cancel, status, loop turns, waiting until the pool has '
+    ctx.rule('C05.R15', 'A10 the thread pool and the work thread over interleavings: %d driver scripts (execute with priorities and completion callbacks, cancel, status, loop turns, waiting until the pool has '
              'settled, cleanup at the end; pools of (min, max) = (0,1) (0,2) (1,1) (1,2) (2,2) (1,3) threads) are interpreted on the syntax trees of ThreadPool and its cabinets with '
              'every std::thread as a model thread, the mutex, the lock scopes, the condition variable, join and delete modelled, and every schedule of the synchronisation '
              'operations with at most %d preemption(s) enumerated: each accepted task runs exactly once, on a worker, unless cancel() answered 0, then never; the completion '
              'callback runs once, on the loop thread, after the body; "not found" is never said of a task that still runs afterwards, "executing" only of a task a worker has '
              'taken, a cancelled task never runs; a worker never takes a task while one that outranks it (priority, then submission order) is waiting; the cabinet never holds '
              'more workers than the maximum; no schedule ends with nobody able to go on (lost wake-up, cleanup that does not return); after cleanup every worker has ended, was '
-             'joined once, every std::thread object destroyed once and every task object returned' % (len(SCRIPTS), 2 if full else 1), floor=1)
+             'joined once, every std::thread object destroyed once and every task object returned; the same for WorkThread (%d scripts, 2 preemptions)' % (len(SCRIPTS), 2 if full else 1, len(WORK_SCRIPTS)), floor=2)
     old_stack, old_rec = threading.stack_size(), sys.getrecursionlimit()
     threading.stack_size(256 * 1024 * 1024)
     sys.setrecursionlimit(max(old_rec, 20000))
@@ -393,6 +428,25 @@ def r15(ctx, prog):
     finally:
         threading.stack_size(old_stack)
         sys.setrecursionlimit(old_rec)
+    W = 'tbox::eventx::WorkThread'
+    wbad = None
+    wruns = 0
+    old_stack, old_rec = threading.stack_size(), sys.getrecursionlimit()
+    threading.stack_size(256 * 1024 * 1024)
+    sys.setrecursionlimit(max(old_rec, 20000))
+    try:
+        for script in WORK_SCRIPTS:
+            n, sched, why = conc.explore(lambda s_: run_once(prog, script, s_, 1, 1, bench=WorkBench), preempt_bound=2, max_runs=6000)
+            wruns += n
+            if why is not None:
+                wbad = (script, sched, why)
+                break
+    finally:
+        threading.stack_size(old_stack)
+        sys.setrecursionlimit(old_rec)
+    g = prog.fn1(W + '::threadProc')
+    ctx.ob('C05.R15', 'WorkThread|interleavings', wbad is None, '%d schedules over %d scripts' % (wruns, len(WORK_SCRIPTS)) if wbad is None else
+           'script %s, schedule %s: %s' % (describe(wbad[0]), ''.join(str(c) for c in wbad[1]), wbad[2]), where=g.loc(g.body))
     f = prog.fn1(T + '::threadProc')
     ctx.ob('C05.R15', 'ThreadPool|interleavings', bad is None, '%d schedules over %d scripts' % (runs, len(SCRIPTS)) if bad is None else
            'pool (min %d, max %d), script %s, schedule %s: %s' % (bad[0][0], bad[0][1], describe(bad[1]), ''.join(str(c) for c in bad[2]), bad[3]), where=f.loc(f.body))
